@@ -17,12 +17,12 @@ func main() {
 	cur := glow.CurrentTimeslot()
 	after := time.Now().Unix()
 	out := map[string]interface{}{
-		"genesis":         glow.VerifGenesis(),
-		"current":         cur,
-		"unix_before":     before,
-		"unix_after":      after,
-		"server":          server.VerifConsts(),
-		"public_files":    server.PublicFiles,
+		"genesis":      glow.VerifGenesis(),
+		"current":      cur,
+		"unix_before":  before,
+		"unix_after":   after,
+		"server":       server.VerifConsts(),
+		"public_files": server.PublicFiles,
 	}
 	json.NewEncoder(os.Stdout).Encode(out)
 }
